@@ -9,6 +9,7 @@ from jinja2 import nodes as N
 
 from ..core import AnalysisError, RuleSpec
 from ..jmodel import JModel, sym
+from . import common
 from ..pymodel import call_name
 from .. import astq
 from . import c09
@@ -432,6 +433,13 @@ def r6_relurl_plain_text(ctx, rep):
                f"`real, dimension(n/2)` is displayed with a mangled bound", py.nloc(a))
 
 
+
+def r7_pure_properties(ctx, rep):
+    """declarations are displayed through properties (full_type, full_declaration, ...) that are read once per page the
+    entity appears on: they must not change the entity"""
+    common.pure_properties(ctx, rep)
+
+
 RULES = [
     RuleSpec("C18.R5", r5_selector_regexes, "kind/len selector regexes capture the whole expression", floor=2),
     RuleSpec("C18.R4", r4_literals_and_argument_attributes, "literal case is preserved; argument attributes are complete", floor=3),
@@ -440,4 +448,5 @@ RULES = [
     RuleSpec("C18.R2", r2_no_transform_after_restore, "no transformation after literals are re-inserted", floor=2),
     RuleSpec("C18.R3", r3_heading, "procedure heading assembly", floor=7),
     RuleSpec("C18.R6", r6_relurl_plain_text, "relurl rewrites links and absolute paths only", floor=1),
+    RuleSpec("C18.R7", r7_pure_properties, "display properties are free of side effects", floor=8),
 ]
